@@ -320,6 +320,11 @@ def build_prog(name, td, want=("PartialEq", "PartialOrd", "Ord", "Hash"), laws=F
                 proofs.append("    #[kani::proof_for_contract(w_%s)]\n    pub fn %s() { let mut s = KaniSrc; let x = <%s as Mk>::mk(&mut s); let y = <%s as Mk>::mk(&mut s); let _r = w_%s(&x, &y); kani::cover!(true); }" % (h, h, T, T, h))
             replays.append('        "%s" => { let x = <%s as Mk>::mk(&mut s); let y = <%s as Mk>::mk(&mut s); let d = w_%s(&x, &y); let r = %s; (d == r, format!("x={:?} y={:?} derived %s = {:?}, documented rule = {:?}", x, y, d, r)) }' % (h, T, T, h, ref.replace("(x, y)", "(&x, &y)"), h))
             harnesses.append(h)
+            if t == "PartialEq":
+                # both operands are the same object: an identity shortcut would differ from the rule on non-reflexive field types
+                proofs.append("    #[kani::proof]\n    pub fn eq_same() { let mut s = KaniSrc; let x = <%s as Mk>::mk(&mut s); let r = w_eq(&x, &x); assert!(r == ref_eq(&x, &x), \"postcondition of w_eq on aliased operands\"); kani::cover!(true); }" % T)
+                replays.append('        "eq_same" => { let x = <%s as Mk>::mk(&mut s); let d = w_eq(&x, &x); let r = ref_eq(&x, &x); (d == r, format!("x={:?}: derived x == x is {:?}, documented rule gives {:?}", x, d, r)) }' % T)
+                harnesses.append("eq_same")
     if "Hash" in td.derived and "Hash" in want:
         parts.append(ref_feed(td))
         wrappers.append("pub fn ref_rec(x: &%s) -> Rec { let mut h = Rec::new(); ref_feed(x, &mut h); h }" % T)
